@@ -1,0 +1,6 @@
+//go:build !verif
+
+package pilosa
+
+// verifTranslateGate is a no-op without build tag verif (see verif_hook_translate_on.go).
+func verifTranslateGate(s *TranslateFile) {}
